@@ -74,7 +74,16 @@ P7 == Program(<<Raw(<<"s1 := \"a\\tb\\n\\\"q\\\"\\\\\"">>),
                 Raw(<<"print s1 s2 s3 s4 s5 (len s2) (len s5) (s2 == \"A\\xe9\\xff\") (s3 < s2) (s5 == \"caf\\u00e9 \\xfe\\xff \\xc3\")">>),
                 Raw(<<"for c := range (s2 + s5)">>), Raw(<<"    print c (c == \"\\xe9\") (c < \"\\xff\")">>), Raw(<<"end">>),
                 Raw(<<"m := {a:\"\\xe9\" b:\"\\xff\\t\"}">>), Raw(<<"print m (m.a == s2[1])">>)>>, <<>>, <<>>)
-Progs == << Seed(NoIns), Seed2, P3, P4, P5, P6, P7 >>
+\* and / or glued between parentheses inside arguments, array elements and map values (where a blank would end
+\* the element): the formatter must keep them glued
+P8 == Program(<<Raw(<<"a := 1">>), Raw(<<"b := 2">>),
+                Raw(<<"print (a>b)and(b>a) (a<b)or(a>b) !(a>b)and(b>a)">>),
+                Raw(<<"x := [(a>b)or(b>a) (a<b)and(a<b)]">>),
+                Raw(<<"m := {k:(a>b)and(b>a) j:(a<b)or(a>b)}">>),
+                Raw(<<"print x m (len [(a<b)and(b>a)])">>),
+                Raw(<<"if (a<b)and(b>a)">>), Raw(<<"    print \"y\" (a==b)or(a!=b)">>), Raw(<<"end">>),
+                Raw(<<"for i := range (len [(a<b)or(b<a) true])">>), Raw(<<"    print i (i>0)and(i<2)">>), Raw(<<"end">>)>>, <<>>, <<>>)
+Progs == << Seed(NoIns), Seed2, P3, P4, P5, P6, P7, P8 >>
 
 TDigit(code, i) == (code \div (7 ^ (i % 9))) % 7
 TailDigit(code) == (code \div 7) % 5
